@@ -14,6 +14,7 @@ import (
 	"time"
 
 	"verif/engine/evid"
+	"verif/engine/shard"
 
 	"github.com/magiconair/properties"
 	"github.com/whatap/golib/config"
@@ -503,6 +504,8 @@ func Run(c *evid.Ctx) {
 	getters(c)
 	writeBack(c)
 	crashImages(c)
+	// getters concurrent with a reload: race mode of E1 in the -race build (race.go)
+	shard.SpawnRace(c, 4)
 	c.Count("evaluations", c.Counter("states"))
 	c.Count("distinct_nontrivial", c.Counter("states")+c.Counter("writeback_cases"))
 	c.Cov["traces_validated_against_impl"] = c.Counter("states")
@@ -511,5 +514,5 @@ func Run(c *evid.Ctx) {
 	c.Sample(map[string]interface{}{"writeback": "file \"# note: c=1=2\\na=1\\n\" SetValues{n: two\\\\slashes}"})
 	c.Assume("the clock is virtual (vtime seam) and the 3 s polling loop is replaced by explicit reload ticks through a verif hook; modification times are set with os.Chtimes on a real scratch file")
 	c.Assume("distinct edits have distinct modification times at the file system's resolution (two edits with the identical timestamp cannot be told apart by any mtime-based poll)")
-	c.Assume("the clause 'getters concurrent with a reload neither crash nor see torn state' is about unsynchronised memory (a plain Go map): it has no scheduling points and is outside what a schedule explorer can enumerate")
+	c.Assume("the clause 'getters concurrent with a reload neither crash nor see torn state' is decided in the race mode of the schedule explorer: every schedule of the reload cycle (after an edit or a deletion of the file) against every getter, in a -race build whose detector sees only the library's own synchronisation")
 }
